@@ -106,6 +106,9 @@ def check(tier, replay_path=None):
     rc = rep.finish()
     if replay_path:
         return rc
+    if st.get('notes', {}).get('OOD', 0) * 2 > len(items):
+        raise common.MachineryError('vacuous: %d of %d environments are outside the domain of OalExec' %
+                                    (st['notes']['OOD'], len(items)))
     cov = {'states': st['tlc_states'], 'transitions': st['tlc_states'], 'traces_validated_against_impl': accepted,
            'evaluations': ncalls, 'distinct_nontrivial': len(distinct),
            'rule': 'one evaluation = one invocation result. For each generated environment (recursive and mutually recursive functions, '
